@@ -22,6 +22,7 @@ type verifyWorld struct {
 	tp       *Tape
 	ktm      *world.KeytabModel
 	settings *service.Settings
+	alt      *service.Settings // a second settings object of the same process with another clock skew
 	base     time.Time
 }
 
@@ -36,6 +37,9 @@ func newVerifyWorld(tp *Tape, base time.Time) (*verifyWorld, error) {
 		return nil, err
 	}
 	w.settings = service.NewSettings(kt, service.MaxClockSkew(time.Duration(tp.SkewS)*time.Second), service.DecodePAC(false))
+	if tp.AltMs != 0 {
+		w.alt = service.NewSettings(kt, service.MaxClockSkew(time.Duration(tp.AltMs)*time.Millisecond), service.DecodePAC(false))
+	}
 	return w, nil
 }
 
@@ -65,13 +69,20 @@ func (w *verifyWorld) present(op Op, ct time.Time) string {
 		return "error"
 	}
 	ap := rk.APReq{Ticket: rk.Ticket{Realm: "SIM.TEST", SName: rk.ParseName(svc), Enc: tenc}, Auth: aenc}
+	if op.SvcNT != 0 {
+		ap.Ticket.SName.Type = op.SvcNT // clear-text field of the ticket
+	}
+	st := w.settings
+	if op.Alt && w.alt != nil {
+		st = w.alt
+	}
 	var g messages.APReq
 	if err := g.Unmarshal(ap.EncBytes()); err != nil {
 		return "error"
 	}
 	var ok bool
 	var verr error
-	panicked, _, _ := engine.Guard(func() { ok, _, verr = service.VerifyAPREQ(&g, w.settings) })
+	panicked, _, _ := engine.Guard(func() { ok, _, verr = service.VerifyAPREQ(&g, st) })
 	switch {
 	case panicked:
 		return "error"
